@@ -560,7 +560,16 @@ def run(ctx, rep, tier="quick"):
     q = P.method("PopulationBasedTraining", "_quantiles")
     srt = [x for x in walk_shallow(q.node) if isinstance(x, ast.Call) and (
         (isinstance(x.func, ast.Attribute) and x.func.attr == "sort") or (isinstance(x.func, ast.Name) and x.func.id == "sorted"))]
-    ok = len(srt) == 1 and "last_score" in U(kwarg(srt[0], "key")) and kwarg(srt[0], "reverse") is None
+    ok = len(srt) == 1 and kwarg(srt[0], "key") is not None and kwarg(srt[0], "reverse") is None
+    if ok and "last_score" not in U(kwarg(srt[0], "key")):
+        # the score travels with the trial: (trial, score) pairs sorted on their second component
+        from .common import inclusion_sites
+        key = kwarg(srt[0], "key")
+        seqe = srt[0].func.value if isinstance(srt[0].func, ast.Attribute) and srt[0].func.attr == "sort" else (srt[0].args[0] if srt[0].args else None)
+        incl = inclusion_sites(ctx, q, seqe.id) if isinstance(seqe, ast.Name) else []
+        second = isinstance(key, ast.Lambda) and isinstance(key.body, ast.Subscript) and U(key.body.slice) == "1" and \
+            U(key.body.value) == key.args.args[0].arg
+        ok = second and bool(incl) and all(isinstance(s_[1], ast.Tuple) and len(s_[1].elts) == 2 and "last_score" in U(s_[1].elts[1]) for s_ in incl)
     rep.put(ok, "S2", "parity", "PBT._quantiles: sorted by the signed score (NORM), lower quantile first", q, srt[0] if srt else None, "")
     t = P.method("Tuner", "best_config")
     from ..engine import var_from_call
